@@ -262,6 +262,11 @@ pub axiom fn axiom_string_from_str()
     ensures <String as vstd::std_specs::convert::FromSpec<&'static str>>::obeys_from_spec(),
         forall|s: &'static str| (#[trigger] <String as vstd::std_specs::convert::FromSpec<&'static str>>::from_spec(s))@ == s@;
 
+// TRUSTED[string-into-string]: `String: Into<String>` is the reflexive `impl<T> From<T> for T` (identity).
+pub axiom fn axiom_string_into_string()
+    ensures <String as vstd::std_specs::convert::IntoSpec<String>>::obeys_into_spec(),
+        forall|s: String| #[trigger] <String as vstd::std_specs::convert::IntoSpec<String>>::into_spec(s) == s;
+
 pub broadcast group group_trusted_strings {
     axiom_string_eq_str_obeys, axiom_string_eq_str, axiom_string_eq_refstr_obeys, axiom_string_eq_refstr,
     axiom_pattern_text_str, axiom_pattern_text_string, axiom_pattern_text_char, axiom_str_len_fits,
